@@ -102,7 +102,7 @@ def main(tier):
             run.ob(ctor in real_arms, "float-roundtrip|%s" % ctor, "C06-a conversion through f64 only in the real-valued functions (sqrt, root, ln, lb, log, exp)", "%s arm %s" % (where(m, "::ast::eval"), ctor), "arm %s converts through f64" % ctor)
     # wrapping_rem only under a non-zero-divisor guard
     for g in [f for f in F.fns if f.evaluator == "eval_i64" and "::ast::" in f.key and f.thir and not f.derived and f.kind != "Closure"]:
-        t = m.tb.fn_term(g, inline_pure=True, eval_fn=(m.tb.eval_fn().path if g.key.endswith("::eval") else None))
+        t = m.tb.fn_term(g, inline_pure=True, eval_fn=(m.tb.eval_names() if (m.tb.eval_fn() is not None and g.path == m.tb.eval_fn().path) else None))
 
         def v(node, anc, g=g):
             if node[0] == "call" and node[1] == "i64::wrapping_rem" and len(node) == 4:
